@@ -66,3 +66,42 @@ package frame
 //@   ensures inv: frameInv(f)
 //@   ensures effect: f.Header.Flags.Contains(primitive.HeaderFlagCompressed) == (compress && f.Header.OpCode != primitive.OpCodeStartup && f.Header.OpCode != primitive.OpCodeOptions && f.Header.OpCode != primitive.OpCodeReady)
 //@   ensures frame: headerKept(f, primitive.HeaderFlagCompressed) && same(f.Body.CustomPayload, old(f.Body.CustomPayload)) && same(f.Body.Warnings, old(f.Body.Warnings)) && same(f.Body.Message, old(f.Body.Message)) && f.Body.TracingId == old(f.Body.TracingId)
+
+// ---- C03: the body length written in the header equals the number of body bytes emitted ------------------------
+
+// bytes the uncompressed body occupies: tracing id (responses only), custom payload, warnings, message
+//@ spec bodyLen(c *codec, header *Header, body *Body) int = encLen(c.messageCodecs[body.Message.GetOpCode()], body.Message, header.Version) + ite(header.Flags.Contains(primitive.HeaderFlagTracing) && body.Message.IsResponse(), int(16), int(0)) + ite(header.Flags.Contains(primitive.HeaderFlagCustomPayload), primitive.LengthOfBytesMap(body.CustomPayload), int(0)) + ite(header.Flags.Contains(primitive.HeaderFlagWarning), primitive.LengthOfStringList(body.Warnings), int(0))
+
+//@ func (*codec).uncompressedBodyLength
+//@   prop C03
+//@   assigns nothing
+//@   requires parts: body.Message != nil
+//@   ensures len: err == nil ==> length == bodyLen(c, header, body)
+
+//@ func (*codec).encodeBodyUncompressed
+//@   prop C03
+//@   assigns wstream(dest)
+//@   requires parts: body.Message != nil
+//@   ensures len: err == nil ==> written(dest) == old(written(dest)) + bodyLen(c, header, body)
+
+//@ func (*codec).EncodeHeader
+//@   prop C03
+//@   assigns wstream(dest)
+//@   ensures len: result == nil ==> written(dest) == old(written(dest)) + ite(header.Version >= primitive.ProtocolVersion3, int(9), int(8))
+
+//@ func (*codec).encodeFrameUncompressed
+//@   prop C03
+//@   assigns wstream(dest), frame.Header.BodyLength
+//@   requires parts: frame.Header != nil && frame.Body != nil && frame.Body.Message != nil
+//@   requires uncompressed: !frame.Header.Flags.Contains(primitive.HeaderFlagCompressed)
+//@   requires fits: 0 <= bodyLen(c, frame.Header, frame.Body) && bodyLen(c, frame.Header, frame.Body) <= 2147483647
+//@   let w0 = written(dest)
+//@   ensures declared: result == nil ==> written(dest) == w0 + ite(frame.Header.Version >= primitive.ProtocolVersion3, int(9), int(8)) + int(frame.Header.BodyLength)
+
+//@ func (*codec).EncodeRawFrame
+//@   prop C03, C05
+//@   assigns wstream(dest), frame.Header.BodyLength
+//@   requires parts: frame.Header != nil
+//@   requires fits: len(frame.Body) <= 2147483647
+//@   let w0 = written(dest)
+//@   ensures declared: result == nil ==> Z(frame.Header.BodyLength) == Z(len(frame.Body)) && written(dest) == w0 + ite(frame.Header.Version >= primitive.ProtocolVersion3, int(9), int(8)) + len(frame.Body)
